@@ -127,18 +127,26 @@ def run_reader(wire: bytes, cfg: dict, tr: dict, keep_objs=False, use_read=False
             if boom["armed"]:
                 boom["armed"] = False
                 raise HandlerBoom("the application's handler failed once")
+            if cfg.get("handler_kind") == "returns_value":
+                return len(out.events)  # e.g. the character count of a log write
+            return None
 
         kind = cfg.get("handler_kind", "function")
         if kind == "falsy_callable":
             kw["errorhandler"] = _FalsyHandler(handler)
         elif kind == "method":
+            # a bound method of an object nobody else refers to (e.g. Monitor().on_error)
             kw["errorhandler"] = _MethodHandler(handler).handle
         else:
             kw["errorhandler"] = handler
     use_read = use_read or cfg.get("drive") == "read"
+    rereads = int(tr.get("rereads", 0)) if tr.get("redrive_all") else 0
     max_items = len(wire) + MAX_ITEMS_SLACK
+    stream_obj = getattr(transport, "stream", transport)
+    core.VirtualClock.source = transport if hasattr(transport, "now") else None
     try:
-        ubr = UBXReader(transport, **kw)
+        ubr = UBXReader(stream_obj, **kw)
+        kw.clear()  # the reader holds the only reference to its handler now
         if cfg.get("decoy"):
             # a second reader alive in the same process with its own policy and handler: nothing
             # this reader does may be routed through the other one's configuration
@@ -150,18 +158,28 @@ def run_reader(wire: bytes, cfg: dict, tr: dict, keep_objs=False, use_read=False
                 quitonerror=cfg.get("decoy_policy", 1),
                 protfilter=cfg.get("decoy_protfilter", 7),
                 msgmode=cfg.get("decoy_msgmode", 0),
+                validate=cfg.get("decoy_validate", 1),
+                parsebitfield=cfg.get("decoy_parsebitfield", 1),
+                labelmsm=cfg.get("decoy_labelmsm", 1),
+                parsing=cfg.get("decoy_parsing", True),
                 errorhandler=decoy_handler,
             )
             out.objs.append(decoy)  # keep it alive for the whole run
         n = 0
-        if use_read or cfg.get("handler_kind") == "raise_once":
+        if use_read or rereads or cfg.get("handler_kind") == "raise_once":
+            ends = 0
             while True:
                 try:
                     raw, parsed = ubr.read()
                 except HandlerBoom:
                     continue  # the application catches its own handler's failure and keeps reading
                 if raw is None and parsed is None:
-                    break
+                    ends += 1
+                    if ends > rereads:
+                        break
+                    if hasattr(transport, "idle"):
+                        transport.idle(1.0)  # the application waits a little and asks again
+                    continue
                 out.items.append((raw, canon_parsed(parsed)))
                 out.events.append(("D", raw))
                 if keep_objs:
@@ -184,6 +202,8 @@ def run_reader(wire: bytes, cfg: dict, tr: dict, keep_objs=False, use_read=False
         out.exc = canon_exc(err)
         out.exc_where = exc_origin(err)
         out.events.append(("X",) + out.exc)
+    finally:
+        core.VirtualClock.source = None
     return out
 
 
